@@ -677,6 +677,14 @@ Proof.
   rewrite (existsb_Exists _ (fun h => 0 < h)) by (intros x; b2p; tauto).
   split; intros [Hf Hb]; (split; [destruct flows; simpl in *; congruence|tauto]).
 Qed.
+Lemma deviceset_init_range (id_ok : bool) (lens : list nat) :
+  DeviceSet_init_accepts id_ok lens = true <-> id_ok = true /\ forall l, In l lens -> l = hd 0%nat lens.
+Proof.
+  unfold DeviceSet_init_accepts. rewrite andb_true_r, andb_true_iff, !negb_involutive, forallb_forall.
+  split.
+  - intros [H1 H2]. split; [exact H2|]. intros l Hl. apply Nat.eqb_eq. auto.
+  - intros [H1 H2]. split; [|exact H1]. intros l Hl. apply Nat.eqb_eq. auto.
+Qed.
 Lemma tworatio_init_range (flows : list string) (ratios : option (list R)) ct :
   TwoRatioMFDeviceSet_init_accepts flows ratios ct = true <->
   length flows = 2%nat /\ (match ratios with None => True | Some r => length r = length flows end) /\ (ct = "eq"%string \/ ct = "ineq"%string).
